@@ -14,6 +14,8 @@ pub enum Ev {
     Sync,
 }
 
+/// see `sync_data`: bounded-progress budget per storage object
+pub const SYNC_BUDGET: u64 = 60_000;
 pub const K_LEN: u8 = 1;
 pub const K_READ: u8 = 2;
 pub const K_WRITE: u8 = 4;
@@ -333,6 +335,19 @@ impl StorageBackend for MonBackend {
     fn sync_data(&self) -> Result<(), io::Error> {
         let mut st = self.lock();
         st.counts.sync += 1;
+        if st.counts.sync > SYNC_BUDGET {
+            // A logical-step bound instead of a wall clock: the small databases of the checks need
+            // tens of syncs per API call and at most a few thousand per case. An API call that is
+            // still issuing durable commits after this many is not making progress (livelock); the
+            // backend starts failing so that the call returns and the case can report it.
+            if st.counts.sync == SYNC_BUDGET + 1 {
+                let n = st.name.clone();
+                st.violations.push(format!(
+                    "backend[{n}] no progress: more than {SYNC_BUDGET} sync_data calls on one storage in one case -- an API call keeps committing without ever finishing (livelock)"
+                ));
+            }
+            return Err(injected());
+        }
         Self::enter(&mut st, K_SYNC, "sync_data")?;
         if st.record {
             st.log.push(Ev::Sync);
